@@ -158,7 +158,7 @@ pub fn one_run(seed: u64, run: u64, pools: &Pools, deliveries: usize) -> RunOutc
             }
         }
         if deep {
-            st.distinct.insert(hash_bytes(hash_bytes(d.n as u64, &d.bytes), &d.pk));
+            report::keep_distinct(&mut st, hash_bytes(hash_bytes(d.n as u64, &d.bytes), &d.pk));
         }
         log.event(&format!(
             "{} {} {} {:016x} {:?}",
@@ -263,6 +263,9 @@ pub fn rerun(tier: Tier, seed: u64, run: u64) -> Option<RunOutcome> {
 
 pub fn check(tier: Tier, seed: u64) -> i32 {
     let mut rep = Report::new(PROP, tier, seed);
+    if tier == Tier::Thorough {
+        report::DISTINCT_SHIFT.store(4, std::sync::atomic::Ordering::Relaxed);
+    }
     let w = report::workers();
     let ctx = match context(tier, seed) {
         Ok(c) => c,
@@ -274,7 +277,7 @@ pub fn check(tier: Tier, seed: u64) -> i32 {
     corpus(&mut rep);
     let out = report::parallel_runs(ctx.runs, w, |run| one_run(seed, run, &ctx.pools, ctx.per_run));
     rep.absorb(out);
-    rep.rule = "a case is one delivery (bytes handed to a decoder, or a (msg, sig, pk) triple handed to from_bytes+verify) produced by the seeded channel/disk fault catalogue or the Byzantine encoders from pristine encodings of the per-invocation key pool; non-trivial = it got past the frame checks (decoded, rejected at field level, or reached verify); distinct = distinct delivered bytes".into();
+    rep.rule = "a case is one delivery (bytes handed to a decoder, or a (msg, sig, pk) triple handed to from_bytes+verify) produced by the seeded channel/disk fault catalogue or the Byzantine encoders from pristine encodings of the per-invocation key pool; non-trivial = it got past the frame checks (decoded, rejected at field level, or reached verify); distinct = distinct delivered bytes".to_string() + &report::distinct_rule_suffix();
     rep.assumptions = vec![
         "harness built with overflow-checks=true and debug-assertions=true, so arithmetic overflow unwinds".into(),
         "key pool is generated by the current tree; a broken keygen/sign is reported as harness error here and as a violation by C01/C05/C15".into(),
